@@ -29,6 +29,7 @@ CONSTANTS Peers,       \* e.g. {"p1", "p2"}
           MaxPerPeer,  \* connection ids per peer
           MaxOverlap,  \* connections per peer the manager admits at once (2 = in scope)
           MaxOpens, MaxInb, MaxFc, MaxExp,   \* bounds on open_substream / inbound / force_close / expiry
+          MaxDropProto,\* protocols the user may drop
           MaxFull,     \* bound on substream results handed to a protocol whose inbox is full
           PCap,        \* capacity of a protocol inbox (DEFAULT_CHANNEL_SIZE = 4096)
           Eager,       \* services that are polled as soon as their inbox is non-empty
@@ -48,11 +49,12 @@ VARIABLES cst,     \* c -> "live" | "closing" | "dead"   (DOMAIN = ids handed ou
           dead,    \* a service panicked
           mgr,     \* connections whose closure the manager has been told of (Bug = "mgr_first")
           cnt,     \* [opens, inb, fc, exp, full] counters for the bounds
+          deadq,   \* protocols the user dropped (TransportService gone; ProtocolSets keep their sender)
           blk,     \* c -> NoBlk or the event a suspended report_substream_open* call is waiting to send
           KA,      \* q -> BOOL: SubstreamKeepAlive::Yes (fixed in Init)
           mon, hist, out
 
-mvars == <<cst, cpeer, cmdq, pend, chan, conns, track, nextId, dead, mgr, cnt, blk, KA>>
+mvars == <<cst, cpeer, cmdq, pend, chan, conns, track, nextId, dead, mgr, cnt, blk, deadq, KA>>
 vars == <<mvars, mon, hist, out>>
 
 KADef == {[q \in Svc |-> q = 0]}
@@ -72,7 +74,7 @@ Init ==
   /\ track = [q \in Svc |-> {}]
   /\ nextId = 0 /\ dead = FALSE /\ mgr = {}
   /\ cnt = [opens |-> 0, inb |-> 0, fc |-> 0, exp |-> 0, full |-> 0]
-  /\ blk = <<>>
+  /\ blk = <<>> /\ deadq = {}
   /\ KA \in KAs
   /\ mon = MonInit /\ hist = <<>> /\ out = [ret |-> [k |-> "none"], panic |-> FALSE]
 
@@ -91,15 +93,18 @@ Strong(c) ==
     Cardinality({q \in Svc : (conns[q][p].pri = c /\ conns[q][p].priA) \/ (conns[q][p].sec = c /\ conns[q][p].secA)})
   + FoldSet(LAMBDA q, acc : acc + Count(chan[q], LAMBDA e : e.k \in {"est", "opened"} /\ e.c = c), 0, Svc)
   + (IF Alive(c) THEN Count(cmdq[c], LAMBDA x : x.k = "open") + Cardinality(pend[c]) ELSE 0)
-  + (IF c \in DOMAIN blk /\ blk[c].k = "opened" THEN 1 ELSE 0)
+  + (IF c \in DOMAIN blk /\ blk[c].k \in {"opened", "est"} THEN 1 ELSE 0)
 
 \* Inbox occupancy.  A `full` delivery is preceded by filler that takes every free slot; a run of
 \* filler is one entry [k |-> "filler", n |-> run length] which the protocol skips silently.
 PhysLen(q) == FoldLeft(LAMBDA acc, e : acc + (IF e.k = "filler" THEN e.n ELSE 1), 0, chan[q])
 Waiting(q) == \E c \in DOMAIN blk : blk[c].k # "none" /\ blk[c].q = q
 \* a new sender gets a slot at once: there is one and nobody is queued for it
-Room(q) == PhysLen(q) < PCap /\ ~Waiting(q)
+\* (a send to a dropped protocol fails at once, it never waits)
+Room(q) == q \in deadq \/ (PhysLen(q) < PCap /\ ~Waiting(q))
 RoomAll == \A q \in Svc : Room(q)
+LiveSvc == Svc \ deadq
+LiveSeq == SetToSortSeq(LiveSvc, <)
 Busy(c) == blk[c].k # "none"
 
 -----------------------------------------------------------------------------
@@ -145,24 +150,24 @@ Proc(q, ch, cn, tr) ==
          ELSE [ch |-> rest, cn |-> cn, tr |-> tr, ev |-> [k |-> "failed", id |-> e.id], panic |-> FALSE]
 
 Poll(q) ==
-  /\ chan[q] # <<>>
+  /\ q \in LiveSvc /\ chan[q] # <<>>
   /\ LET r == Proc(q, chan[q], conns[q], track[q]) IN
      /\ chan' = [chan EXCEPT ![q] = r.ch]
      /\ conns' = [conns EXCEPT ![q] = r.cn]
      /\ track' = [track EXCEPT ![q] = r.tr]
      /\ dead' = r.panic
-     /\ UNCHANGED <<cst, cpeer, cmdq, pend, nextId, mgr, cnt, blk>>
+     /\ UNCHANGED <<cst, cpeer, cmdq, pend, nextId, mgr, cnt, blk, deadq>>
      /\ Handle([a |-> "poll", q |-> q], r.ev, r.panic)
 
 \* the keep-alive timeout of (p, c) elapses at service q.  poll_next reaches the keep-alive loop
 \* only when the inbox is empty, so that is when the downgrade happens.
 Expire(q, p, c) ==
-  /\ chan[q] = <<>> /\ <<p, c>> \in track[q] /\ cnt.exp < MaxExp
+  /\ q \in LiveSvc /\ chan[q] = <<>> /\ <<p, c>> \in track[q] /\ cnt.exp < MaxExp
   /\ track' = [track EXCEPT ![q] = @ \ {<<p, c>>}]
   /\ conns' = [conns EXCEPT ![q][p] =
         IF @.pri = c THEN [@ EXCEPT !.priA = FALSE] ELSE IF @.pri # 0 /\ @.sec = c THEN [@ EXCEPT !.secA = FALSE] ELSE @]
   /\ cnt' = [cnt EXCEPT !.exp = @ + 1]
-  /\ UNCHANGED <<cst, cpeer, cmdq, pend, chan, nextId, dead, mgr, blk>>
+  /\ UNCHANGED <<cst, cpeer, cmdq, pend, chan, nextId, dead, mgr, blk, deadq>>
   /\ Handle([a |-> "expire", q |-> q, p |-> p, c |-> c], [k |-> "ok", pev |-> [k |-> "pending"]], FALSE)
 
 -----------------------------------------------------------------------------
@@ -170,9 +175,9 @@ Expire(q, p, c) ==
 
 Open(q, p) ==
   LET x == conns[q][p] c == x.pri stim == [a |-> "open", q |-> q, p |-> p] IN
-  /\ cnt.opens < MaxOpens
+  /\ q \in LiveSvc /\ cnt.opens < MaxOpens
   /\ cnt' = [cnt EXCEPT !.opens = @ + 1]
-  /\ UNCHANGED <<cst, cpeer, pend, chan, dead, mgr, blk>>
+  /\ UNCHANGED <<cst, cpeer, pend, chan, dead, mgr, blk, deadq>>
   /\ IF c = 0 THEN
           UNCHANGED <<cmdq, conns, track, nextId>> /\ Handle(stim, [k |-> "err", err |-> "PeerDoesNotExist"], FALSE)
      ELSE IF ~(x.priA \/ Strong(c) > 0) THEN    \* try_get_permit: the weak sender cannot be upgraded
@@ -192,12 +197,12 @@ CanSend(c, active) == (active \/ Strong(c) > 0) /\ Alive(c)
 
 FClose(q, p) ==
   LET x == conns[q][p] IN
-  /\ x.pri # 0 /\ cnt.fc < MaxFc
+  /\ q \in LiveSvc /\ x.pri # 0 /\ cnt.fc < MaxFc
   /\ cnt' = [cnt EXCEPT !.fc = @ + 1]
   /\ LET q1 == IF x.sec # 0 /\ CanSend(x.sec, x.secA) THEN [cmdq EXCEPT ![x.sec] = Append(@, [k |-> "force"])] ELSE cmdq
          okp == CanSend(x.pri, x.priA) IN
      /\ cmdq' = IF okp THEN [q1 EXCEPT ![x.pri] = Append(@, [k |-> "force"])] ELSE q1
-     /\ UNCHANGED <<cst, cpeer, pend, chan, conns, track, nextId, dead, mgr, blk>>
+     /\ UNCHANGED <<cst, cpeer, pend, chan, conns, track, nextId, dead, mgr, blk, deadq>>
      /\ Handle([a |-> "fclose", q |-> q, p |-> p], [k |-> IF okp THEN "ok" ELSE "err"], FALSE)
 
 -----------------------------------------------------------------------------
@@ -206,38 +211,67 @@ FClose(q, p) ==
 NCid == Cardinality(DOMAIN cst)
 Admitted(p) == {c \in DOMAIN cst : cpeer[c] = p /\ cst[c] = "live" /\ c \notin mgr}
 
-\* a transport accepted a connection: ProtocolSet::report_connection_established
-Est(p) ==
-  LET c == NCid + 1 IN
+\* A transport accepted a connection: ProtocolSet::report_connection_established.  Every send is
+\* attempted; a send to a dropped protocol fails and is skipped (logged), the others complete.
+\*  full = -1: every live inbox has room, the call returns at once.
+\*  full = q : the inbox of live protocol q has just been filled: the other sends complete (or fail),
+\*             the call stays suspended on q (Deliver) and the connection task does not start yet.
+\* Seeded defect "est_break": the loop is left at the first failed send, which cancels the sends
+\* that have not completed - any live protocol polled after the dropped one, and always the one
+\* whose inbox is full.
+Est(p, full) ==
+  LET c == NCid + 1
+      ev == [k |-> "est", p |-> p, c |-> c]
+      stim == [a |-> "est", p |-> p, c |-> c, dir |-> Dir(c), full |-> full]
+      others == LiveSvc \ {full} IN
   /\ c <= MaxCid
   /\ Cardinality({d \in DOMAIN cst : cpeer[d] = p}) < MaxPerPeer
   /\ Cardinality(Admitted(p)) < MaxOverlap
-  /\ RoomAll                       \* otherwise report_connection_established would be suspended
-  /\ blk' = (c :> NoBlk) @@ blk
+  /\ \A q \in others : Room(q)
+  /\ (full # -1 => full \in LiveSvc /\ ~Waiting(full) /\ cnt.full < MaxFull)
+  /\ cnt' = IF full # -1 THEN [cnt EXCEPT !.full = @ + 1] ELSE cnt
   /\ cst' = (c :> "live") @@ cst /\ cpeer' = (c :> p) @@ cpeer
   /\ cmdq' = (c :> <<>>) @@ cmdq /\ pend' = (c :> {}) @@ pend
-  /\ chan' = [q \in Svc |-> Append(chan[q], [k |-> "est", p |-> p, c |-> c])]
-  /\ UNCHANGED <<conns, track, nextId, dead, mgr, cnt>>
-  /\ Handle([a |-> "est", p |-> p, c |-> c, dir |-> Dir(c)], [k |-> "ok"], FALSE)
+  /\ UNCHANGED <<conns, track, nextId, dead, mgr, deadq>>
+  /\ LET fill == IF full # -1 /\ PhysLen(full) < PCap
+                   THEN [chan EXCEPT ![full] = Append(@, [k |-> "filler", n |-> PCap - PhysLen(full)])] ELSE chan IN
+     IF Bug = "est_break" /\ deadq # {} THEN
+          \E got \in SUBSET others :
+             /\ chan' = [q \in Svc |-> IF q \in got THEN Append(fill[q], ev) ELSE fill[q]]
+             /\ blk' = (c :> NoBlk) @@ blk
+             /\ Handle(stim, [k |-> "ok"], FALSE)
+     ELSE /\ chan' = [q \in Svc |-> IF q \in others THEN Append(fill[q], ev) ELSE fill[q]]
+          /\ blk' = (c :> (IF full # -1 THEN ev @@ [q |-> full, dirn |-> "est", id |-> -1] ELSE NoBlk)) @@ blk
+          /\ Handle(stim, [k |-> IF full # -1 THEN "blocked" ELSE "ok"], FALSE)
+
+\* the user drops protocol q: its TransportService (inbox, connection handles, keep-alive tracker) is gone
+DropProto(q) ==
+  /\ q \in LiveSvc /\ Cardinality(deadq) < MaxDropProto /\ Cardinality(LiveSvc) > 1
+  /\ deadq' = deadq \cup {q}
+  /\ chan' = [chan EXCEPT ![q] = <<>>]
+  /\ conns' = [conns EXCEPT ![q] = [p \in Peers |-> NoCtx]]
+  /\ track' = [track EXCEPT ![q] = {}]
+  /\ UNCHANGED <<cst, cpeer, cmdq, pend, nextId, dead, mgr, cnt, blk>>
+  /\ Handle([a |-> "dropproto", q |-> q], [k |-> "ok"], FALSE)
 
 \* ProtocolSet::report_connection_closed: every protocol, then the manager.
 \* clog = q: the harness makes the call block on protocol q and looks at the manager channel
 \* meanwhile (same transition, different observation).
 Close(c, clog) ==
   /\ cst[c] = "live" /\ ~Busy(c) /\ RoomAll
-  /\ (clog # -1 => Clog /\ clog \in Svc /\ chan[clog] = <<>>)
+  /\ (clog # -1 => Clog /\ clog \in LiveSvc /\ chan[clog] = <<>>)
   /\ cst' = [cst EXCEPT ![c] = "closing"]
-  /\ chan' = [q \in Svc |-> Append(chan[q], [k |-> "closed", p |-> cpeer[c], c |-> c])]
+  /\ chan' = [q \in Svc |-> IF q \in LiveSvc THEN Append(chan[q], [k |-> "closed", p |-> cpeer[c], c |-> c]) ELSE chan[q]]
   /\ mgr' = mgr \cup {c}
-  /\ UNCHANGED <<cpeer, cmdq, pend, conns, track, nextId, dead, cnt, blk>>
+  /\ UNCHANGED <<cpeer, cmdq, pend, conns, track, nextId, dead, cnt, blk, deadq>>
   /\ Handle([a |-> "close", c |-> c, p |-> cpeer[c], clog |-> clog],
-            [k |-> "ok", early |-> FALSE, mgr |-> 1, told |-> SvcSeq], FALSE)
+            [k |-> IF deadq = {} THEN "ok" ELSE "err", early |-> FALSE, mgr |-> 1, told |-> LiveSeq], FALSE)
 
 \* seeded defect "mgr_first": the manager hears of the closure first and may admit a new connection
 MgrTold(c) ==
   /\ Bug = "mgr_first" /\ cst[c] = "live" /\ c \notin mgr
   /\ mgr' = mgr \cup {c}
-  /\ UNCHANGED <<cst, cpeer, cmdq, pend, chan, conns, track, nextId, dead, cnt, blk>>
+  /\ UNCHANGED <<cst, cpeer, cmdq, pend, chan, conns, track, nextId, dead, cnt, blk, deadq>>
   /\ Handle([a |-> "mgrtold", c |-> c], [k |-> "ok"], FALSE)
 
 \* the connection task ends: ProtocolSet (command receiver, unanswered requests, permits) dropped
@@ -245,7 +279,7 @@ Drop(c) ==
   /\ cst[c] = "closing" /\ ~Busy(c)
   /\ cst' = [cst EXCEPT ![c] = "dead"]
   /\ cmdq' = [cmdq EXCEPT ![c] = <<>>] /\ pend' = [pend EXCEPT ![c] = {}]
-  /\ UNCHANGED <<cpeer, chan, conns, track, nextId, dead, mgr, cnt, blk>>
+  /\ UNCHANGED <<cpeer, chan, conns, track, nextId, dead, mgr, cnt, blk, deadq>>
   /\ LET opens == SelectSeq(cmdq[c], LAMBDA x : x.k = "open") IN
      Handle([a |-> "drop", c |-> c],
             [k |-> "ok", unread |-> [i \in 1..Len(opens) |-> [q |-> opens[i].q, id |-> opens[i].id]]], FALSE)
@@ -253,7 +287,7 @@ Drop(c) ==
 \* the connection polls its ProtocolSet once
 Cmd(c) ==
   /\ cst[c] = "live" /\ ~Busy(c)
-  /\ UNCHANGED <<cst, cpeer, chan, conns, track, nextId, dead, mgr, cnt, blk>>
+  /\ UNCHANGED <<cst, cpeer, chan, conns, track, nextId, dead, mgr, cnt, blk, deadq>>
   /\ IF cmdq[c] # <<>> THEN
           LET x == Head(cmdq[c]) IN
           /\ cmdq' = [cmdq EXCEPT ![c] = Tail(@)]
@@ -271,7 +305,13 @@ Cmd(c) ==
 \*  full = TRUE : every free slot of the inbox has just been taken (filler): the call is suspended
 \*                inside the connection task until the protocol has consumed something (Deliver).
 Send(c, q, ev, full, stim) ==
-  IF ~full THEN
+  IF q \in deadq THEN
+       \* the receiver is gone: the send fails, the event is dropped
+       /\ ~full
+       /\ UNCHANGED <<chan, blk>>
+       /\ cnt' = IF stim.a = "inbound" THEN [cnt EXCEPT !.inb = @ + 1] ELSE cnt
+       /\ Handle(stim, [k |-> "err"], FALSE)
+  ELSE IF ~full THEN
        /\ Room(q)
        /\ chan' = [chan EXCEPT ![q] = Append(@, ev)]
        /\ UNCHANGED blk
@@ -288,19 +328,24 @@ Send(c, q, ev, full, stim) ==
 \* the suspended call of connection c gets its slot
 Deliver(c) ==
   /\ Busy(c)
-  /\ LET ev == blk[c] q == ev.q IN
-     /\ PhysLen(q) < PCap
-     /\ chan' = [chan EXCEPT ![q] = Append(@, ev)]
+  /\ LET ev == blk[c] q == ev.q
+         stim == [a |-> "deliver", c |-> c,
+                  what |-> IF ev.k = "est" THEN "est" ELSE IF ev.dirn = "in" THEN "inbound" ELSE "reply",
+                  id |-> ev.id, ok |-> ev.k \in {"opened", "est"}, q |-> q, p |-> cpeer[c]] IN
      /\ blk' = [blk EXCEPT ![c] = NoBlk]
-     /\ UNCHANGED <<cst, cpeer, cmdq, pend, conns, track, nextId, dead, mgr, cnt>>
-     /\ Handle([a |-> "deliver", c |-> c, what |-> IF ev.dirn = "in" THEN "inbound" ELSE "reply",
-                 id |-> ev.id, ok |-> ev.k = "opened", q |-> q, p |-> cpeer[c]], [k |-> "ok"], FALSE)
+     /\ UNCHANGED <<cst, cpeer, cmdq, pend, conns, track, nextId, dead, mgr, cnt, deadq>>
+     /\ IF q \in deadq
+          THEN \* the protocol was dropped meanwhile: the suspended send fails
+               UNCHANGED chan /\ Handle(stim, [k |-> IF ev.k = "est" THEN "ok" ELSE "err"], FALSE)
+          ELSE /\ PhysLen(q) < PCap
+               /\ chan' = [chan EXCEPT ![q] = Append(@, ev)]
+               /\ Handle(stim, [k |-> "ok"], FALSE)
 
 \* report_substream_open / report_substream_open_failure (negotiation finished, failed or timed out)
 Reply(c, x, ok, full) ==
   /\ cst[c] = "live" /\ ~Busy(c) /\ x \in pend[c]
   /\ pend' = [pend EXCEPT ![c] = @ \ {x}]
-  /\ UNCHANGED <<cst, cpeer, cmdq, conns, track, nextId, dead, mgr>>
+  /\ UNCHANGED <<cst, cpeer, cmdq, conns, track, nextId, dead, mgr, deadq>>
   /\ Send(c, x.q, IF ok THEN [k |-> "opened", p |-> cpeer[c], c |-> c, q |-> x.q, dirn |-> "out", id |-> x.id]
                         ELSE [k |-> "failed", id |-> x.id, q |-> x.q, dirn |-> "out"],
           full, [a |-> "reply", c |-> c, id |-> x.id, ok |-> ok, full |-> full, q |-> x.q])
@@ -308,7 +353,7 @@ Reply(c, x, ok, full) ==
 \* the remote opened a substream for protocol q
 Inbound(c, q, full) ==
   /\ cst[c] = "live" /\ ~Busy(c) /\ cnt.inb < MaxInb
-  /\ UNCHANGED <<cst, cpeer, cmdq, pend, conns, track, nextId, dead, mgr>>
+  /\ UNCHANGED <<cst, cpeer, cmdq, pend, conns, track, nextId, dead, mgr, deadq>>
   /\ IF Strong(c) > 0 THEN
           Send(c, q, [k |-> "opened", p |-> cpeer[c], c |-> c, q |-> q, dirn |-> "in", id |-> -1],
                full, [a |-> "inbound", c |-> c, q |-> q, p |-> cpeer[c], full |-> full])
@@ -316,7 +361,8 @@ Inbound(c, q, full) ==
           /\ Handle([a |-> "inbound", c |-> c, q |-> q, p |-> cpeer[c], full |-> full], [k |-> "nopermit"], FALSE)
 
 Normal ==
-  \/ \E p \in Peers : Est(p)
+  \/ \E p \in Peers : \E full \in {-1} \cup Svc : Est(p, full)
+  \/ \E q \in Svc : DropProto(q)
   \/ \E c \in DOMAIN cst : Close(c, -1) \/ Drop(c) \/ Cmd(c) \/ MgrTold(c)
   \/ \E c \in DOMAIN cst : \E q \in Svc : Close(c, q) \/ Inbound(c, q, FALSE) \/ Inbound(c, q, TRUE)
   \/ \E c \in DOMAIN cst : \E x \in pend[c] : \E ok, full \in BOOLEAN : Reply(c, x, ok, full)
